@@ -25,11 +25,14 @@ RULE = ("random ADMGs (0-6 nodes, bidirected chains, isolated nodes, random inse
         "lists x start x stop. A case is non-trivial when the graph has >=3 nodes, at least one pair is separable and at "
         "least one pair is not (within the limit).")
 ASSUMPTIONS = [
-    "'true separation' for the y0 test are_d_separated is property C04: the C15 theorems are parametric in any symmetric "
-    "separation test and are instantiated with the C04 model; whatever is OPEN in C04 is inherited by that clause",
+    "'true separation in the graph': the theorems ci_sound/ci_complete/ci_unique/ci_minimum/ci_total are parametric in any "
+    "separation test that is symmetric and set-valued in C (GoodTest); ci_exact instantiates them with the C04 model and, "
+    "through C04's dsep_iff_dsep_canonical (fully proved), states them for d-separation in the canonical latent DAG",
+    "ci_exact is stated for a call that returns; ci_total_admg shows the call returns on every ADMG for both policies (it uses "
+    "the lemmas topologicalSort_total / topologicalSort_complete about the shared Kahn model, proved on branch `latent`, merged here)",
     "Python iterates a set of vertices (hash order) where the model iterates the sorted vertex list: with return_all=False the "
     "particular minimum-size conditioning set kept for a pair may differ, so correspondence compares (left, right, size) there "
-    "and the exact sets only with return_all=True + _len_lex; the theorems hold for every vertex order",
+    "and the exact sets only with return_all=True + _len_lex; the theorems hold for every duplicate-free vertex order",
     "minimal(): stable sort + groupby is modelled as 'distinct (left, right) keys in sorted order, each with the filtered "
     "sub-list in input order'",
 ]
@@ -61,7 +64,7 @@ CORPUS = [
 def cases(rng: random.Random, tier: str):
     from .c04 import C_load_corpus  # noqa: F401
     out = [dict(c) for c in CORPUS] + _load_corpus()
-    for _ in range(700 if tier == "quick" else 5000):
+    for _ in range(2200 if tier == "quick" else 14000):
         g = rand_admg(rng, 0 if rng.random() < 0.05 else 2, 6 if rng.random() < 0.4 else 5)
         out.append({"kind": "ci", "g": g, "k": rng.choice([None, None, 0, 1, 1, 2, 2, 3, 4]),
                     "policy": rng.choice(["topological", "topological", "len_lex"]), "all": rng.random() < 0.35})
@@ -265,17 +268,20 @@ def finding_key(case, res):
 
 
 MANIFEST = {
-    "text": ("Proof: Lean theorems about the executable model of d_separations / minimal / the two built-in policies / powerset / "
-             "get_conditional_independencies, parametric in ANY symmetric separation test: every listed judgement passes the "
-             "test, is canonical and within the size limit (sound); every pair with some separating set within the limit is listed "
-             "(complete); exactly one judgement per unordered pair and none for other pairs (unique); no smaller separating set "
-             "exists for a listed pair (minimum); for limit none and some k, both policies, return_all on and off. "
-             "'True separation' for the instantiation with are_d_separated is property C04. Tied to the code on every run by "
-             "differential correspondence; an independent brute-force oracle over all pairs and subsets (path enumeration in the "
-             "canonical latent DAG) searches for a failing input."),
+    "text": ("Proof: 18 Lean theorems about the executable model of d_separations / minimal / the two built-in policies / powerset / "
+             "get_conditional_independencies (the code after the fix of defect F6), parametric in ANY separation test that is "
+             "symmetric in (a, b) and depends on C only as a set, for every duplicate-free vertex order, every size limit (none or "
+             "k), both policies, return_all on or off — whenever the call returns R: every listed judgement passes the test, is "
+             "canonical, is about two vertices left < right with an admissible conditioning set of at most k other vertices "
+             "(ci_sound); every pair that some admissible set within the limit separates is listed (ci_complete); no two listed "
+             "judgements share (left, right) (ci_unique); no separating set of any size is smaller than the listed one "
+             "(ci_minimum); the call returns for _len_lex always and for the topological policy when every vertex occurs in the "
+             "order (ci_total), hence on every ADMG (ci_total_admg). ci_exact instantiates all of this with the are_d_separated model and, via property C04's "
+             "dsep_iff_dsep_canonical, states it for true d-separation in the canonical latent DAG. Tied to the code on every "
+             "run by differential correspondence (results, and powerset with its order); an independent brute-force oracle over "
+             "all pairs and all subsets (path enumeration in the canonical latent DAG) searches for a failing input."),
     "note": ("Trusted: Lean kernel; axioms propext/Classical.choice/Quot.sound; hand-written model tied to the code by sampling; "
              "Python set iteration order (hash order) is modelled as sorted order — the theorems hold for every order, the "
-             "correspondence compares exactly only what the Python result determines. The clause 'true separation in the graph' "
-             "inherits C04's status."),
-    "technique": "Lean 4 theorems (list reasoning over combinations/powerset/first-hit search, parametric in the test) + differential correspondence + brute-force oracle over all pairs and subsets",
+             "correspondence compares exactly only what the Python result determines."),
+    "technique": "Lean 4 theorems (list reasoning over combinations/powerset/first-hit search/min-by-key, parametric in the test) + differential correspondence + brute-force oracle over all pairs and subsets",
 }
